@@ -81,7 +81,17 @@ def replay_file(path: str, repo: str = None) -> int:
         rec = json.load(open(path, encoding="utf-8"))
         cell = driver.Cell(rec["cell"], repo)
         try:
-            res = cell.exec_case(rec["property"], rec["case"])
+            if rec["clause"].endswith("/hang"):
+                try:
+                    cell.send({"cmd": "exec", "pid": rec["property"], "case": rec["case"],
+                               "run_timeout": int(driver.HANG_TIMEOUT_S)})
+                    res = cell._read(driver.HANG_TIMEOUT_S + 15)["res"]
+                except HarnessError as exc:
+                    print(f"REPRODUCED property={rec['property']} clause={rec['clause']} (the run stalls or kills its "
+                          f"interpreter): {str(exc)[-300:]}")
+                    return 1
+            else:
+                res = cell.exec_case(rec["property"], rec["case"])
         finally:
             cell.close()
     except HarnessError as exc:
@@ -181,7 +191,7 @@ def run_check(pid: str, tier: str, seed: int, budget_s: Optional[float] = None, 
         print("  expected:", json.dumps(r["expected"], default=str)[:600])
     nclauses = len({u["viol"]["clause"] for u in unknown})
     print(f"{pid} {tier} seed={seed}: runs={total_runs} violating_runs="
-          f"{sum(a['violating_runs'] for a in aggs.values())} unknown_violations={len(unknown)} "
+          f"{sum(a['violating_runs'] for a in aggs.values())} unknown_violations(reported to driver)={len(unknown)} "
           f"clauses={nclauses} known_hits={sum(known_hits.values())} wall={wall:.1f}s")
     return 1 if unknown else 0
 
@@ -192,6 +202,15 @@ def report_violation(pid, tier, seed, item, budget_s, repo) -> dict:
     cell_spec = msg["cell"]
     clause = viol["clause"]
     min_steps, hit_budget, fresh, dg = 0, False, "not-run", msg.get("digest")
+    if clause.endswith("/hang"):
+        rec = {"property": pid, "clause": clause, "seed": seed, "tier": tier, "run_index": msg["run_index"],
+               "cell": cell_spec, "case": case, "violation": viol, "digest": None, "minimised_steps": 0,
+               "minimiser_hit_budget": False, "fresh_interpreter_replay": "located by the one-run-per-interpreter pass",
+               "replay_cmd": "cd /verif && /venv/bin/python -m corsim replay <this file>"}
+        path = write_replay(rec, f"{pid}-hang-{seed}-{msg['run_index']}.json")
+        return {"path": path, "clause": clause, "run_index": msg["run_index"], "cell": cell_spec, "min_steps": 0,
+                "fresh": "located in a fresh interpreter", "observed": viol.get("observed"),
+                "expected": viol.get("expected")}
     try:
         cell = driver.Cell(cell_spec, repo)
         try:
